@@ -38,7 +38,7 @@ COMPONENTS = {
     "real": ["_evaluator_results.py (contexts, labels, transforms, splitting)", "EnsembleEvaluator", "results.* (_immutable_copy)", "filters", "VariableScaler"],
     "stub": ["SimEvaluator in hostile modes", "sim/scripted optimizer", "objective/constraint scalers"],
 }
-PROBES = ["negative_realization_weight", "inactive_realization_seen", "buffer_reused", "calls_checked", "inactive_entry_seen", "garbage_entries", "memo_hits", "readonly_arrays", "split_gradient_call",
+PROBES = ["labelled_export_checked", "negative_realization_weight", "inactive_realization_seen", "buffer_reused", "calls_checked", "inactive_entry_seen", "garbage_entries", "memo_hits", "readonly_arrays", "split_gradient_call",
           "values_checked", "twin_compared", "results_immutability_checked", "transform_with_memo", "nan_rows", "batch_call",
           "zero_weight_from_filter"]
 
@@ -165,6 +165,23 @@ def execute(scn: dict) -> dict:
             continue
         checked += 1
         probe("calls_checked")
+        if not ln.is_function:
+            # the labelled export of the per-(realization, perturbation) values: every slice carries the values of its label
+            for res in (ln.opt, ln.user):
+                ge = res.evaluations
+                for name in ("perturbed_variables", "perturbed_objectives", "perturbed_constraints"):
+                    arr = getattr(ge, name)
+                    if arr is None:
+                        continue
+                    arr = np.asarray(arr)
+                    exported = ge.to_dict(name)
+                    probe("labelled_export_checked")
+                    for key, sl in exported.items():
+                        if np.shape(sl) != arr[..., key].shape or not np.array_equal(np.asarray(sl), arr[..., key], equal_nan=True):
+                            viol.append({"clause": "exported-value-under-wrong-label", "sig": {"field": name},
+                                         "detail": f"eval {call.k}: to_dict({name!r})[{key}] has shape {np.shape(sl)} and is not the "
+                                                   f"[realization, perturbation] slice {arr[..., key].shape} of the reported field"})
+                            break
         if call.kind == "f" and call.variables.shape[0] > nr:
             probe("batch_call")
         # ---- 1. completeness and labels ------------------------------------------------------
